@@ -219,7 +219,10 @@ func pslForm(domain string) string {
 
 func isAligned(fromDomain, authDomain string, mode AlignmentMode) bool {
 	if mode == dmarc.AlignmentStrict {
-		return strings.EqualFold(fromDomain, authDomain)
+		// Strict mode demands the same domain, not the same spelling: the
+		// header can carry U-labels where the signature carries A-labels,
+		// and an absolute name ends with a dot.
+		return dns.Equal(fromDomain, authDomain)
 	}
 
 	fromDomain, authDomain = pslForm(fromDomain), pslForm(authDomain)
